@@ -84,6 +84,14 @@ CHECKS = {
             "Design: every combination of file states (absent, intact, empty, truncated, modified, longer) and missing directories, crash "
             "after every mutation, repeated runs: user files untouched, factory restored, blacklist only created, idempotent. Code: the same "
             "judged on real runs over systematic and seeded trees with crash points."),
+    "C19": ("exploration", "DESIGN.md 5/C19",
+            "TLA+ spec of the watcher pipeline (spec/Watcher.tla: kernel queue with coalescing, filter, unbuffered hand-off, cancel) "
+            "model-checked by TLC incl. liveness; the real DetectDeviceConfigChanges run on scenario-driven write sequences, counts and "
+            "stream end judged by TLC (spec/WatcherHist.tla)",
+            "exploration with a model: kernel notification timing is outside the model; bounds: 150 ms to look for a notification that "
+            "should not exist, 10 s for a missing one / a stream that does not end",
+            "Scenarios: isolated writes and bursts on TOML / non-TOML files in the four directories, prompt and late consumer, cancellation "
+            "at arbitrary points."),
     "C20": ("model_checking", "DESIGN.md 5/C20",
             "TLA+ spec of grouping and type rule (spec/Discovery.tla); the real input.Normalize run on every sequence of synthetic "
             "handlers (every multiset in every order), each call judged by TLC (spec/CaseTrace.tla)",
@@ -118,7 +126,7 @@ def main():
              "serves_properties": [i for i in ids if i in CHECKS and i in ("C01", "C02", "C03", "C04", "C05", "C06", "C07", "C08", "C13", "C14")],
              "kind_free_text": "TLC exhaustive model checking + tours + trace validation of the per-device engine"},
             {"name": "case-oracle", "path": "spec/CaseTrace.tla spec/NoteNames.tla spec/Loader.tla spec/Discovery.tla spec/ConfigFile.tla",
-             "serves_properties": [i for i in ids if i in CHECKS and i in ("C09", "C10", "C11", "C12", "C15", "C18", "C20")],
+             "serves_properties": [i for i in ids if i in CHECKS and i in ("C09", "C10", "C11", "C12", "C15", "C18", "C19", "C20")],
              "kind_free_text": "specification as enumerated oracle: the real function is run on generated cases, TLC judges every logged case"},
         ],
         "checks": [],
